@@ -52,6 +52,7 @@ func (s *sequencer) NextSequenceNumber() uint16 {
 	if s.sequenceNumber == 0 {
 		s.rollOverCount++
 	}
+	verifSeqHook(s.sequenceNumber, s.rollOverCount)
 
 	return s.sequenceNumber
 }
